@@ -31,7 +31,9 @@ from dateutil import tz as du_tz
 GEN = ["dtdecls"]
 RULE = ("one yaql call per case on host data; datetimes from the year grid {1,1969,1970,2000,2038,9999} + range "
         "edges x random month/day/time/microsecond, as naive objects, aware objects (datetime.timezone, "
-        "dateutil tzoffset/tzutc) and values built by yaql's own datetime(...); offsets at minute resolution in "
+        "dateutil tzoffset/tzutc), aware objects whose tzinfo has a VARYING offset (zoneinfo.ZoneInfo, dateutil "
+        "tzstr/tzrange/tzfile, a toy tzinfo subclass; sampled on both sides of their offset changes, around the epoch "
+        "and over the year grid) and values built by yaql's own datetime(...); offsets at minute resolution in "
         "(-24h,24h) (edge list + uniform); timespans from signed integer components; non-trivial = the call "
         "involves a non-zero offset, a naive host datetime, a range edge or a non-zero timespan; distinct = "
         "distinct (operation, canonical inputs)")
@@ -41,8 +43,12 @@ TRUSTED = ["Model/DateTime.v is a hand transcription of yaql/standard_library/da
            "instants of host objects; dateutil.tz fixed offsets",
            "float results are compared with the exact rational through a relative tolerance of 2^-51 "
            "(C20_float_tolerance states what that means); float->fraction conversion by float.as_integer_ratio"]
-ASSUMPTIONS = ["tzinfo objects are fixed-offset zones (datetime.timezone, dateutil tzoffset/tzutc): no DST rules, "
-               "utcoffset independent of the date",
+ASSUMPTIONS = ["a host datetime denotes (wall reading, utcoffset() at that reading), whatever its tzinfo class; "
+               "variable-offset zones are sampled only at readings whose offset is constant within +-3 h (no ambiguous "
+               "or non-existent wall times: PEP 495 fold semantics are not modelled); calls whose result keeps the host's "
+               "variable-offset tzinfo (+, -, .date) are compared only when the offset at the result equals the offset at "
+               "the operand (python moves the wall reading, not the instant); two operands of one call never share one "
+               "variable-offset tzinfo object (python then compares/subtracts wall readings, ignoring the offsets)",
                "offsets are whole minutes strictly inside (-24h, 24h) as in the property's quantifier",
                "timestamps handed to datetime(timestamp, offset) are integers or floats that determine their "
                "microsecond exactly; datetime(string) and format() only for the ISO-8601 shape "
@@ -96,12 +102,107 @@ def off_of(d):
     return None if o is None else o // US
 
 
+class ToyZone(datetime.tzinfo):
+    """a tzinfo subclass whose offset depends on the date: +02:00 from April to September, +01:00 otherwise"""
+
+    def utcoffset(self, dt):
+        return datetime.timedelta(hours=2 if 4 <= dt.month <= 9 else 1)
+
+    def dst(self, dt):
+        return datetime.timedelta(hours=1 if 4 <= dt.month <= 9 else 0)
+
+    def tzname(self, dt):
+        return "TOY"
+
+    def __repr__(self):
+        return "ToyZone()"
+
+
+def _make_zones():
+    """name -> tzinfo with a varying offset; only what can be built offline on this host"""
+    zones = {"toy": ToyZone()}
+    for name, text in (("tzstr:CET", "CET-1CEST,M3.5.0,M10.5.0/3"), ("tzstr:EST", "EST5EDT,M3.2.0,M11.1.0"),
+                       ("tzstr:LHST", "LHST-10:30LHDT-11,M10.1.0,M4.1.0")):
+        try:
+            zones[name] = du_tz.tzstr(text)
+        except Exception:
+            pass
+    try:
+        zones["tzrange:AEST"] = du_tz.tzrange("AEST", 36000, "AEDT", 39600)
+    except Exception:
+        pass
+    for key in ("Europe/Berlin", "America/New_York", "Australia/Lord_Howe", "America/St_Johns"):
+        try:
+            import zoneinfo
+            z = zoneinfo.ZoneInfo(key)
+            z.utcoffset(datetime.datetime(2020, 7, 1))
+            zones["zoneinfo:" + key] = z
+        except Exception:
+            pass
+        try:
+            z = du_tz.gettz(key)
+            if z is not None:
+                zones["tzfile:" + key] = z
+        except Exception:
+            pass
+    return zones
+
+
+ZONES = _make_zones()
+ZONE_NAMES = sorted(ZONES)
+_transitions = {}
+
+
+def zone_offset(z, naive):
+    return naive.replace(tzinfo=z).utcoffset()
+
+
+def steady(z, naive):
+    """the zone's offset is the same 3 h before and after this wall reading, a whole number of minutes inside
+    (-24h, 24h), and the reading exists: no ambiguous / non-existent wall time, no change of offset nearby"""
+    try:
+        offs = {zone_offset(z, naive + datetime.timedelta(hours=h)) for h in (-3, -1, 0, 1, 3)}
+        if len(offs) != 1:
+            return False
+        o = offs.pop()
+        if o is None or o % datetime.timedelta(minutes=1) or abs(o) >= datetime.timedelta(hours=24):
+            return False
+        aware = naive.replace(tzinfo=z)
+        return aware.astimezone(UTC).astimezone(z).replace(tzinfo=None) == naive
+    except (OverflowError, ValueError):
+        return False
+
+
+def zone_transitions(name, year):
+    """noon of every day of the year after which the zone's noon offset differs from the next day's"""
+    key = (name, year)
+    if key not in _transitions:
+        z, out = ZONES[name], []
+        day = datetime.datetime(year, 1, 1, 12)
+        prev = zone_offset(z, day)
+        for i in range(1, 366):
+            try:
+                nxt = day + datetime.timedelta(days=1)
+                cur = zone_offset(z, nxt)
+            except OverflowError:
+                break
+            if cur != prev:
+                out.append(day)
+            day, prev = nxt, cur
+        _transitions[key] = out
+    return _transitions[key]
+
+
 def host(spec):
-    """spec = {"kind", "wall", "offmin"} -> python datetime (None for kind 'yaql')."""
+    """spec = {"kind", "wall", "offmin"[, "zone"]} -> python datetime (None for kind 'yaql')."""
     naive = DMIN + spec["wall"] * US
     k = spec["kind"]
     if k == "naive":
         return naive
+    if k == "zone":
+        d = naive.replace(tzinfo=ZONES[spec["zone"]])
+        assert d.utcoffset() == datetime.timedelta(minutes=spec["offmin"]), "zone %s gives another offset here" % spec["zone"]
+        return d
     delta = datetime.timedelta(minutes=spec["offmin"])
     if k == "timezone":
         return naive.replace(tzinfo=datetime.timezone(delta))
@@ -546,7 +647,8 @@ def judge(c, obs):
 # --------------------------------------------------------------------------
 YEARS = [1, 1969, 1970, 2000, 2038, 9999]
 OFF_EDGES = [0, 1, -1, 59, -59, 60, -60, 90, -90, 180, -180, 330, -330, 345, 570, -570, 720, -720, 840, 1439, -1439]
-KINDS = ["naive", "timezone", "tzoffset", "yaql", "tzutc"]
+FIXED_KINDS = ["naive", "timezone", "tzoffset", "yaql", "tzutc"]
+KINDS = FIXED_KINDS + ["zone"]
 
 
 def gen_wall(rng):
@@ -575,8 +677,47 @@ def gen_offmin(rng):
     return rng.choice(OFF_EDGES) if rng.random() < 0.4 else rng.randrange(-1439, 1440)
 
 
+def gen_zone_host(rng):
+    """an aware host datetime in a zone with a varying offset, at a steady wall reading: on both sides of the
+    zone's changes of offset, around the epoch, and anywhere in the grid years"""
+    for _ in range(80):
+        name = rng.choice(ZONE_NAMES)
+        z = ZONES[name]
+        year = rng.choice([1970, 1970, 1969, 2000, 2021, 2038, 9999, 1])
+        r = rng.random()
+        try:
+            if r < 0.55:
+                trs = zone_transitions(name, year)
+                if not trs:
+                    continue
+                naive = rng.choice(trs) + datetime.timedelta(days=rng.choice([-2, -1, 0, 0, 1, 1, 2, 3]),
+                                                             seconds=rng.randrange(-43200, 43200),
+                                                             microseconds=rng.randrange(10 ** 6))
+            elif r < 0.75:
+                naive = datetime.datetime(1970, 1, 1) + datetime.timedelta(seconds=rng.randrange(-4 * 86400, 4 * 86400),
+                                                                           microseconds=rng.choice([0, 1, 999999, rng.randrange(10 ** 6)]))
+            else:
+                naive = datetime.datetime(year, 1, 1) + datetime.timedelta(days=rng.randrange(365), seconds=rng.randrange(86400),
+                                                                           microseconds=rng.randrange(10 ** 6))
+        except OverflowError:
+            continue
+        if not steady(z, naive):
+            continue
+        return {"kind": "zone", "zone": name, "wall": (naive - DMIN) // US,
+                "offmin": zone_offset(z, naive) // datetime.timedelta(minutes=1)}
+    return gen_host(rng, FIXED_KINDS)
+
+
+def keeps_offset(spec, result_naive):
+    """for a zone host: the zone has the operand's offset at this other wall reading too (and steadily)"""
+    z = ZONES[spec["zone"]]
+    return steady(z, result_naive) and zone_offset(z, result_naive) == datetime.timedelta(minutes=spec["offmin"])
+
+
 def gen_host(rng, kinds=KINDS):
     k = rng.choice(kinds)
+    if k == "zone":
+        return gen_zone_host(rng)
     spec = {"kind": k, "wall": gen_wall(rng), "offmin": 0}
     if k in ("timezone", "tzoffset", "yaql"):
         spec["offmin"] = gen_offmin(rng)
@@ -585,13 +726,13 @@ def gen_host(rng, kinds=KINDS):
 
 def gen_related(rng, spec):
     """another datetime near the same instant (equal instants with different offsets matter)."""
-    k = rng.choice(KINDS)
+    k = rng.choice(FIXED_KINDS)       # never a second operand in a variable-offset zone (see ASSUMPTIONS)
     offmin = gen_offmin(rng) if k in ("timezone", "tzoffset", "yaql") else 0
     inst = spec["wall"] - spec["offmin"] * 60000000
     delta = rng.choice([0, 0, 0, 1, -1, 60000000, -60000000, 3600000000, -3600000000, rng.randrange(-DAY, DAY)])
     w = inst + delta + offmin * 60000000
     if not (0 <= w < MAXWALL):
-        return gen_host(rng)
+        return gen_host(rng, FIXED_KINDS)
     return {"kind": k, "wall": w, "offmin": offmin}
 
 
@@ -709,6 +850,13 @@ def gen_case(rng):
         h, t = gen_host(rng), gen_ts(rng)
         if rng.random() < 0.1:      # push across the range edge
             t = rng.choice([-1, 1]) * (h["wall"] if rng.random() < 0.5 else MAXWALL - h["wall"]) + rng.choice([-1, 0, 1])
+        if h["kind"] == "zone":
+            try:
+                ok = keeps_offset(h, DMIN + (h["wall"] + (-t if op == "OpSubTs" else t)) * US)
+            except OverflowError:
+                ok = True            # a range error either way
+            if not ok:
+                h = gen_host(rng, FIXED_KINDS)
         return {"op": op, "args": [t, h] if op == "OpAddR" else [h, t]}
     if r < 0.60:
         a = gen_host(rng)
@@ -717,7 +865,10 @@ def gen_case(rng):
         a = gen_host(rng)
         return {"op": "OpCmp", "args": [rng.choice(list(CMPS)), a, gen_related(rng, a)]}
     if r < 0.82:
-        return {"op": rng.choice(["OpDate", "OpTime"]), "args": [gen_host(rng)]}
+        op, h = rng.choice(["OpDate", "OpTime"]), gen_host(rng)
+        if op == "OpDate" and h["kind"] == "zone" and not keeps_offset(h, DMIN + (h["wall"] - h["wall"] % DAY) * US):
+            h = gen_host(rng, FIXED_KINDS)
+        return {"op": op, "args": [h]}
     if r < 0.85:
         return {"op": "OpField", "args": [rng.choice(list(FIELDS)), gen_host(rng)]}
     if r < 0.875:
@@ -770,7 +921,7 @@ def gen_build(rng):
 
 
 def gen_replace(rng):
-    h = gen_host(rng)
+    h = gen_host(rng, FIXED_KINDS)        # the result would keep a variable-offset tzinfo at another reading
     n = DMIN + h["wall"] * US
     alt = gen_field_values(rng, n)
     reps = [alt[i] if rng.random() < 0.3 else None for i in range(7)]
@@ -813,7 +964,8 @@ def report_case(run, c, text, obs, model_disagrees):
     req = judge(c, obs)
     key = (c["op"], c["args"][0] if c["op"] in ("OpCmp", "OpField", "OpUnit", "OpTsOp") else
            [x[0] for x in c["args"] if isinstance(x, list)][0] if c["op"] in ("OpTsMul", "OpTsMulR", "OpTsDiv") else None,
-           tuple(sorted({h["kind"] == "naive" for h in specs_of(c)})), req is None)
+           tuple(sorted({h["kind"] == "naive" for h in specs_of(c)})),
+           any(h["kind"] == "zone" for h in specs_of(c)), req is None)
     _seen_fail[key] = _seen_fail.get(key, 0) + 1
     if _seen_fail[key] > 1:
         return
@@ -826,6 +978,8 @@ def report_case(run, c, text, obs, model_disagrees):
             what += " [%s%s]" % (CMPS[c["args"][0]], ", naive operand" if any(is_naive(h) for h in specs_of(c)) else "")
         elif any(is_naive(h) for h in specs_of(c)):
             what += " [naive host datetime]"
+        if any(h["kind"] == "zone" for h in specs_of(c)):
+            what += " [host datetime in a zone with a varying offset]"
         run.fail("violation", what, data)
     elif model_disagrees:
         run.fail("mismatch", "model and implementation disagree on a call the Python reference accepts: %s" % c["op"], data)
@@ -858,6 +1012,10 @@ def correspondence(run):
         run.count("obs:" + (obs[0] if obs[0] != "err" else "err:" + obs[1]))
         for h in specs_of(c):
             run.count("host:" + h["kind"])
+            if h["kind"] == "zone":
+                run.count("zone:" + h["zone"].split(":")[0])
+                run.count("zone-offset-vs-epoch:" + ("same" if zone_offset(ZONES[h["zone"]], datetime.datetime(1970, 1, 1))
+                                                     == datetime.timedelta(minutes=h["offmin"]) else "different"))
             run.count("offset:" + ("zero" if h["offmin"] == 0 else "nonzero"))
         if i % 499 == 0:
             run.sample({"yaql": text, "case": c, "observed": list(obs)})
@@ -1146,6 +1304,8 @@ def check_law(run, name, inp):
     if name == "naive_is_utc":
         e = bad.get("expression", "")
         sub = " [%s]" % ("timestamp" if ".timestamp" in e else "equality" if (" = " in e or " != " in e) else "other")
+    if any(isinstance(v, dict) and v.get("kind") == "zone" for v in inp.values()):
+        sub += " [host datetime in a zone with a varying offset]"
     key = (name, sub)
     _law_fail[key] = _law_fail.get(key, 0) + 1
     if _law_fail[key] == 1:
